@@ -19,6 +19,7 @@ PROFILES = {
     "symtarget": dict(features={"arith", "symcall", "call", "mem"}, nstmts=(1, 3), depth=1, branchy=0.3),
     "valuecall": dict(features={"arith", "valuecall", "call", "branch", "mem"}, nstmts=(1, 3), depth=1, branchy=0.3),
     "corr": dict(features={"arith", "corr", "mem", "storage"}, nstmts=(1, 3), depth=1),
+    "stackops": dict(features={"arith", "stackops", "mem", "env"}, nstmts=(1, 3), depth=0),
     "symloop": dict(features={"arith", "loop", "symloop", "storage", "mem"}, nstmts=(1, 2), depth=1),
     "symjump": dict(features={"arith", "symjump", "mem"}, nstmts=(1, 2), depth=0),
     "callfail": dict(features={"arith", "callfail", "call", "storage"}, nstmts=(1, 3), depth=1, branchy=0.8),
